@@ -58,7 +58,7 @@ pub fn check(bytes: &[u8], _ctx: &Ctx) -> Verdict {
     };
     let na = glue::to_profile(info, &glue::read_named(&sa)).unwrap();
     let nb = glue::to_profile(info, &glue::read_named(&sb)).unwrap();
-    let p_exp = match s.below(8) {
+    let p_exp = match s.below(10) {
         0 => 1.0,
         1 => 2.0,
         2 => 0.5,
@@ -66,15 +66,28 @@ pub fn check(bytes: &[u8], _ctx: &Ctx) -> Verdict {
         4 => 10.0,
         5 => 1e3,
         6 => 0.01 + 4.0 * s.unit(),
+        // exponents at which every |l-r|^p, l^p and r^p of a mixed infoset underflows
+        7 => [3e3, 1e4, 1e6, 1e300, f64::MAX, 1e-300, 5e-324][s.below(7)],
+        8 => 1.0 + 3000.0 * s.unit(),
         _ => f64::INFINITY,
     };
     let mut labels = vec![["identical", "one-infoset-differs", "independent", "independent", "independent"][relation]];
     // documented panics: non-positive p
     if s.chance(16) {
         let bad = [0.0, -1.0, -0.0, f64::NEG_INFINITY][s.below(4)];
-        let res = catch_unwind(AssertUnwindSafe(|| sa.distance(&sb, bad)));
+        // between two objects, between an object and its clone, and of an object with itself
+        let clone = sa.clone();
+        let who = s.below(3);
+        let res = catch_unwind(AssertUnwindSafe(|| match who {
+            0 => sa.distance(&sb, bad),
+            1 => sa.distance(&clone, bad),
+            _ => sa.distance(&sa, bad),
+        }));
         if res.is_ok() {
-            return Verdict::fail("C19/no-panic-nonpositive-p", format!("distance with p = {} did not panic", bad));
+            return Verdict::fail(
+                "C19/no-panic-nonpositive-p",
+                format!("distance with p = {} did not panic ({})", bad, ["two profiles", "a profile and its clone", "a profile and itself"][who]),
+            );
         }
         labels.push("nonpositive-p-panics");
     }
@@ -98,6 +111,11 @@ pub fn check(bytes: &[u8], _ctx: &Ctx) -> Verdict {
         Err(_) => return Verdict::fail("C19/panic", format!("distance panicked for the same game and p = {}", p_exp)),
     };
     let d_ba = sb.distance(&sa, p_exp);
+    // a profile compared with itself (the same object) is at distance zero
+    let d_self = sa.distance(&sa, p_exp);
+    if d_self != [0.0, 0.0] {
+        return Verdict::fail(if d_self.iter().any(|d| d.is_nan()) { "C19/nan" } else { "C19/nonzero-for-equal" }, format!("distance of a profile to itself is {:?} (p = {})", d_self, p_exp));
+    }
     crate::runner::note(|| format!("game {}", built.tree.brief()));
     crate::runner::note(|| format!("profile a {:?}", pa));
     crate::runner::note(|| format!("profile b {:?}", pb));
@@ -181,7 +199,7 @@ pub fn prop() -> Prop {
         id: "C19",
         check,
         describe,
-        rule: "small generated games (including players without multi-action infosets) x pairs of profiles (identical; differing in one infoset by 1e-12 or arbitrarily; independent, incl. pure vs pure with disjoint supports) x p in {1e-3, 0.5, 1, 2, 10, 1e3, random}; oracle: each component in [0,1] and not NaN, 0 for coinciding profiles, > 0 when some infoset differs by > 1e-6 (p <= 10), bitwise symmetric, panics exactly for p <= 0 and for another Game object. Non-trivial = the game has a multi-action infoset and some infoset has disjoint supports or one player has no infoset; distinct by (tree, profiles, p).",
+        rule: "small generated games (including players without multi-action infosets) x pairs of profiles (identical; differing in one infoset by 1e-12 or arbitrarily; independent, incl. pure vs pure with disjoint supports) x p in {1e-3, 0.5, 1, 2, 10, 1e3, random in (0,4), random in (1,3000), 3e3, 1e4, 1e6, 1e300, f64::MAX, 1e-300, 5e-324}; oracle: each component in [0,1] and not NaN, 0 for coinciding profiles, > 0 when some infoset differs by > 1e-6 (p <= 10), bitwise symmetric, panics exactly for p <= 0 (also for a profile and its clone or itself) and for another Game object; a profile is at distance 0 from itself. Non-trivial = the game has a multi-action infoset and some infoset has disjoint supports or one player has no infoset; distinct by (tree, profiles, p).",
         max_len: 700,
         cases_quick: 2_000_000,
         cases_thorough: 25_000_000,
